@@ -12,7 +12,7 @@ NAMES = ["x", "y"]
 TOKENS = []
 for n in NAMES:
     TOKENS += ["D " + n, "DL " + n, "DO " + n, "DF " + n, "A " + n, "O " + n, "R " + n, "AL " + n, "AO " + n, "AOR " + n, "DOR " + n, "ALR " + n]
-TOKENS += ["D _", "DL _", "DO _", "R _", "A _", "O _", "DF _", "AOR _"]
+TOKENS += ["D _", "DL _", "DO _", "R _", "A _", "O _", "DF _", "AOR _", "D _u", "R _u", "DS x", "DS y"]
 TOKENS += ["{", "P x{", "P _{", "FOR x{", "FOR _{", "FORP y{", "}"]
 
 
@@ -34,8 +34,12 @@ def build(seq):
         parts = t.split(" ")
         op = parts[0]
         n = parts[1].rstrip("{") if len(parts) > 1 else None
+        if op in ("D", "DL", "DO", "DF", "DOR", "DS") and stack[-1][0] in ("param", "for", "forp") and stack[-1][2] == n:
+            return None      # redeclaring a parameter / loop target at the top of its own body: unspecified (DESIGN section 5)
         if op == "D":
             cur.append(A.Declare(V(n), val()))
+        elif op == "DS":
+            cur.append(A.Declare(V(n), A.Bin("+", V(n), val())))
         elif op == "DL":
             cur.append(A.Declare(A.lst(V(n), V("_")), A.lst(val(), I(0))))
         elif op == "DO":
